@@ -98,12 +98,18 @@ class Mir:
         for m in re.finditer(r'^(?:const|static) ([^\n{]*?): ([^\n=]*?) = \{\n(.*?)\n\}\n', txt, re.S | re.M):
             v = re.search(r'_0 = const (-?\d+)_(\w+);', m.group(3))
             if v: self.consts[m.group(1).strip()] = (int(v.group(1)), v.group(2))
+            else:
+                v = re.search(r'_0 = const ([\w:]+) as (\w+) \(IntToInt\);', m.group(3))
+                if v: self._deferred = getattr(self, '_deferred', []) + [(m.group(1).strip(), v.group(1), v.group(2))]
         for m in FN_RE.finditer(txt):
             head, body = m.group(1), m.group(2)
             hm = re.match(r'(.*?)\((.*)\) -> (.*)$', head, re.S)
             if hm:
                 name = hm.group(1).strip()
                 self.fns.setdefault(name, Fn(name, hm.group(2), body))
+        for name, ref, ty in getattr(self, '_deferred', []):
+            cv = self.const(ref)
+            if cv and ty in BITS: self.consts[name] = (cv[0], ty)
         self.sha = hashlib.sha1(txt.encode()).hexdigest()[:12]
         # `<impl at file:line:..>::method` -> `Type::method` (type read from the source line of the impl)
         self.alias = {}
@@ -123,6 +129,13 @@ class Mir:
                 if t:
                     meth = k.split('>::')[-1]
                     self.alias.setdefault(t.group(1) + '::' + meth, []).append(k)
+
+    def merge(self, other):
+        for k, v in other.fns.items(): self.fns.setdefault(k, v)
+        for k, v in other.consts.items(): self.consts.setdefault(k, v)
+        for k, v in other.alias.items(): self.alias.setdefault(k, []).extend(x for x in v if x not in self.alias.get(k, []))
+        self.sha = hashlib.sha1((self.sha + other.sha).encode()).hexdigest()[:12]
+        return self
 
     def find(self, path):
         if path in self.fns: return self.fns[path]
@@ -144,7 +157,12 @@ class Mir:
 
     def const(self, name):
         if name in self.consts: return self.consts[name]
-        last = name.split('::')[-1]
+        segs = name.split('::')
+        for k in range(len(segs) - 1):
+            suf = '::'.join(segs[k:])
+            c = [x for x in self.consts if x == suf or x.endswith('::' + suf)]
+            if len(c) == 1: return self.consts[c[0]]
+        last = segs[-1]
         c = [k for k in self.consts if k.split('::')[-1] == last]
         if len(c) >= 1:
             vals = {self.consts[k] for k in c}
@@ -193,6 +211,10 @@ class Ref:
 class Opaque:
     def __init__(s, tag, data=None): s.tag, s.data = tag, data
     def __repr__(s): return f'Opaque({s.tag})'
+class Boxed:
+    """Box<T>: `.0` (Unique) and `.0` (NonNull) projections stay on the box, deref yields the content"""
+    def __init__(s, val): s.val = val
+    def __repr__(s): return f'Boxed({s.val})'
 class Panic:
     def __init__(s, msg): s.msg = msg
     def __repr__(s): return f'Panic({s.msg})'
@@ -350,8 +372,10 @@ class Engine:
         for p in projs:
             if p[0] == 'deref':
                 while isinstance(v, Ref): v = self.read_place(v.frame, v.place)
+                if isinstance(v, Boxed): v = v.val
             elif p[0] == 'field':
                 while isinstance(v, Ref): v = self.read_place(v.frame, v.place)
+                if isinstance(v, Boxed): continue
                 if isinstance(v, E): v = v.fields[int(p[1])]
                 elif isinstance(v, U256): raise NotImplementedError('field of U256')
                 else: v = v.get(p[1])
@@ -830,7 +854,7 @@ def default_models():
         else:
             yield p, E('None')
 
-    @reg(r'as TryInto<u64>>::try_into$|as TryFrom<u128>>::try_from$')
+    @reg(r'as TryInto<u64>>::try_into$|<u64 as TryFrom<u128>>::try_from$')
     def _(e, c, a, p):
         x, = a
         p1 = e.fork(p, T.cmp('<', x.t, P2(64)))
@@ -860,6 +884,28 @@ def default_models():
         elif isinstance(x, E): yield p, convert_err(x)
         else: raise NotImplementedError(c)
 
+    @reg(r'as From<.*Pod(U16|U64|I64)>>::from$')
+    def _(e, c, a, p):
+        x = e.deref(a[0])
+        m = re.search(r'<(\w+) as From', c)
+        yield p, I(x.t, m.group(1))
+
+    @reg(r'<impl u\d+>::checked_div$')
+    def _(e, c, a, p):
+        x, y = a
+        pz = e.fork(p, T.cmp('=', y.t, C(0)))
+        if pz: yield pz, E('None')
+        pn = e.fork(p, T.cmp('>', y.t, C(0)))
+        if pn:
+            side = []
+            q, r = e.divrem(x.t, y.t, side)
+            yield Path(pn.pc + side, pn.trace), E('Some', [I(q, x.ty)])
+
+    @reg(r'Result::<.*>::ok$')
+    def _(e, c, a, p):
+        o, = a
+        yield p, (E('Some', o.fields) if o.var == 'Ok' else E('None'))
+
     @reg(r' as Ord>::min$|std::cmp::min::<')
     def _(e, c, a, p):
         x, y = a; yield p, I(T.ite(T.cmp('<=', x.t, y.t), x.t, y.t), x.ty)
@@ -870,7 +916,7 @@ def default_models():
 
     @reg(r'Box::<.*>::new$')
     def _(e, c, a, p):
-        yield p, a[0]
+        yield p, Boxed(a[0])
 
     # ---- 256-bit kernels: contracts K1..K12 (DESIGN §5)
     @reg(r'(^|::)mul_u256$')
@@ -966,11 +1012,16 @@ class Obligation:
         return '\n'.join(ls) + '\n'
 
 
+PORTFOLIO = ['smt.arith.nl.horner=false', 'smt.random_seed=11', 'smt.arith.nl.grobner=false', 'smt.arith.nl.horner=false smt.random_seed=5']
+
+
 def _run_solver(args):
     path, cap, solver = args
     t0 = time.time()
     if solver == 'cvc5':
         cmd = ['cvc5', '--lang', 'smt2', f'--tlimit={cap * 1000}', '--produce-models', path]
+    elif solver.startswith('z3:'):
+        cmd = ['z3-new', f'-T:{cap}'] + solver[3:].split() + [path]
     else:
         cmd = ['z3-new', f'-T:{cap}', path]
     try:
@@ -991,7 +1042,7 @@ def parse_model(out):
     return m
 
 
-def discharge(obls, cap, jobs, outdir, solver='z3'):
+def discharge(obls, cap, jobs, outdir, solver='z3', portfolio=True):
     """run every obligation (negated goal) through the solver in parallel; sets verdict unsat/sat/unknown"""
     os.makedirs(outdir, exist_ok=True)
     tasks = []
@@ -1002,16 +1053,32 @@ def discharge(obls, cap, jobs, outdir, solver='z3'):
         tasks.append((fn, cap, solver))
     with ThreadPoolExecutor(max_workers=jobs) as ex:
         res = list(ex.map(_run_solver, tasks))
-    for o, (out, dt) in zip(obls, res):
-        o.time = dt
+    def classify(out):
         first = out.strip().split('\n')[0] if out.strip() else 'unknown'
         if '(error' in out and first != 'unsat':
             # z3 prints (error "model is not available") after unsat; anything else is inconclusive
             first = 'unknown' if 'model is not available' not in out else first
         if first == 'unsat' and '(error' in out and 'model is not available' not in out:
             first = 'unknown'
-        o.verdict = first if first in ('sat', 'unsat') else 'unknown'
+        return first if first in ('sat', 'unsat') else 'unknown'
+    for o, (out, dt) in zip(obls, res):
+        o.time = dt
+        o.verdict = classify(out)
         if o.verdict == 'sat': o.model = parse_model(out)
+    # second pass: a portfolio of solver configurations for what the default configuration left open
+    hard = [o for o in obls if o.verdict == 'unknown']
+    if hard and portfolio and solver == 'z3':
+        tasks = [(o.file, cap, 'z3:' + cfg) for o in hard for cfg in PORTFOLIO]
+        with ThreadPoolExecutor(max_workers=jobs) as ex:
+            res2 = list(ex.map(_run_solver, tasks))
+        k = 0
+        for o in hard:
+            for cfg in PORTFOLIO:
+                out, dt = res2[k]; k += 1
+                v = classify(out)
+                if v != 'unknown' and o.verdict == 'unknown':
+                    o.verdict = v; o.time += dt; o.solver = 'z3-5.1 ' + cfg
+                    if v == 'sat': o.model = parse_model(out)
     return obls
 
 
